@@ -400,6 +400,12 @@ class Translator:
                 self.stmts.append(("update", c.func.value.id, self.tx(c.args[-1], cur)))
                 for n in self.alias_names(c.args[-1]):
                     self.union(c.func.value.id, n)
+            elif isinstance(c, ast.Call) and isinstance(c.func, ast.Attribute):
+                b = c.func.value                       # any other method-style call statement may mutate its receiver: x.fill(..), x.sort(), x[i].fill(..)
+                while isinstance(b, (ast.Subscript, ast.Attribute)):
+                    b = b.value
+                if isinstance(b, ast.Name) and _dotted(c.func).split(".")[0] not in ("warnings", "tl", "T", "np", "tensorly"):
+                    self.stmts.append(("update", b.id, "XAny"))
         elif isinstance(s, (ast.Pass, ast.Break, ast.Continue, ast.Raise, ast.Assert, ast.Import, ast.ImportFrom)):
             pass
         else:
@@ -411,6 +417,9 @@ class Translator:
             if n is not self.fdef and isinstance(n, (ast.FunctionDef, ast.AsyncFunctionDef, ast.Lambda, ast.ClassDef, ast.Global, ast.Nonlocal,
                                                      ast.NamedExpr, ast.Delete, ast.Yield, ast.YieldFrom, ast.Await)):
                 raise Untranslatable(type(n).__name__ + " at line " + str(getattr(n, "lineno", "?")))
+        for n in ast.walk(self.fdef):
+            if isinstance(n, ast.Call) and (any(k.arg == "out" for k in n.keywords) or _dotted(n.func) in ("exec", "eval", "setattr", "locals", "vars", "globals")):
+                raise Untranslatable("in-place / reflective call at line " + str(getattr(n, "lineno", "?")))
         self.block(self.fdef.body, {})
         stale = [a for a, n in list(self.assume.items()) + list(self.assume_f.items()) if n == 0]
         if stale:
@@ -431,12 +440,15 @@ class Translator:
             else:
                 for i in classes[self.find(s[1])]:
                     out.append(f"SUpdate {i}%nat {s[2]}")
+        assigned = set(self.nver) | {s_[1] for s_ in self.stmts if s_[0] == "update"}
         a0 = []
         for (name, ver) in self.order:
             if ver == "all" and name in self.params:
                 a0.append(self.param_signs.get(name, "SgAny"))
+            elif ver == "all" and name not in assigned:
+                a0.append("SgAny")                     # a module-level name: nothing is known about it
             else:
-                a0.append("SgPos")
+                a0.append("SgPos")                     # a local before its first assignment has no entries
         ret = "XNonneg"
         for r in self.returns:
             ret = f"(XPair {r} {ret})"
